@@ -91,6 +91,9 @@ class _Compiler:
                         self.emitter.append(f"case {' | '.join(f'0b0{pattern}' for pattern in patterns)}:")
                     with self.emitter.indent():
                         case_handler(*case)
+                    if patterns is None:
+                        # Cases after the default one are never active (and are rejected by Python).
+                        break
         else:
             for index, case in enumerate(cases):
                 patterns = case[0]
